@@ -439,6 +439,9 @@ def units_dispatch(cx):
                 ok = ok and fn.eqv(st.value, 'FlowCal.transform.to_rfi(%s, %s)' % (smp, ch)) is not None and sym.norm(s0) == ('var', smp)
             else:
                 ok = ok and fn.eqv(st.value, "mef_transform_fxns[%s['Beads ID']](%s, %s)" % (row, smp, ch)) is not None and sym.norm(s0) == ('var', smp)
+        if kinds == want[u]:
+            for k, st in calls:
+                fn.ctx_ob('DISPATCH', 'units %r: conversion %s' % (u, k), st)
         if u == 'mef' and len(calls) == 2:
             ok = ok and calls[0][1].lineno < calls[1][1].lineno
         fn.ob('DISPATCH', 'units %r: %s' % (u, {'channel': 'values left as channel numbers', 'rfi': 'converted to RFI', 'a.u.': 'converted to RFI',
@@ -764,7 +767,9 @@ def run_sequence(cx):
         ('default output name', "OF = '{}_output.xlsx'.format(NOEXT)"),
         ('default output path next to the input', 'output_path = os.path.join(ID, OF)'),
         ('... only when no output path was given', 'if output_path is None:'),
-    ], ['OF', 'NOEXT', 'ID'])
+        ('directory and file name of the workbook', 'ID, IF = os.path.split(input_path)'),
+        ('file name without its extension (suffix split, not character stripping)', 'NOEXT, EXT = os.path.splitext(IF)'),
+    ], ['OF', 'NOEXT', 'ID', 'IF', 'EXT'], rebind_ok=('input_path', 'output_path'))
     return fn
 
 
